@@ -140,11 +140,16 @@ def _reader_table(ctx, f: FuncInfo, var: str):
         boolnat = False
         for s in body:
             for n in walk_no_nested(s):
-                if isinstance(n, ast.If) and isinstance(n.test, ast.Compare) and isinstance(n.test.ops[0], ast.In) \
-                        and isinstance(n.test.left, ast.Constant) and n.test.left.value == "T":
-                    if "DateTime" in codec_calls(n.body, "decode") and "Date" in (
-                            codec_calls(n.orelse, "decode") | codec_calls(_following(arm.body, n), "decode")):
-                        tsplit = True
+                if isinstance(n, ast.If):
+                    from ..paths import if_arms
+                    core, when_t, when_f = if_arms(n)
+                    if isinstance(core, ast.Compare) and isinstance(core.ops[0], (ast.In, ast.NotIn)) and isinstance(core.left, ast.Constant) and core.left.value == "T":
+                        if isinstance(core.ops[0], ast.NotIn):
+                            when_t, when_f = when_f, when_t
+                        # with a 'T' → DateTime; without → Date (in the other arm, or in what follows when the T arm returns)
+                        if "DateTime" in codec_calls(when_t, "decode") and "Date" in (
+                                codec_calls(when_f, "decode") | codec_calls(_following(arm.body, n), "decode")):
+                            tsplit = True
                 if isinstance(n, ast.Compare) and any(isinstance(c, ast.Constant) and c.value == "true"
                                                       for c in n.comparators):
                     boolnat = True
